@@ -1535,7 +1535,19 @@ where
                                         && close.is_prepared_statement()
                                         && !close.anonymous()
                                     {
-                                        self.prepared_statements.remove(&close.name);
+                                        // Parse registers a name as soon as it is buffered, Close only
+                                        // here: if the name was prepared again later in this batch
+                                        // (Close s; Parse s), the entry belongs to that Parse. Keep it.
+                                        let prepared_again = match self.prepared_statements.get(&close.name) {
+                                            Some((current, _)) => self.extended_protocol_data_buffer.iter().any(|later| {
+                                                matches!(later, ExtendedProtocolData::Parse { metadata: Some((parse, _)), .. } if parse.name == current.name)
+                                            }),
+                                            None => false,
+                                        };
+
+                                        if !prepared_again {
+                                            self.prepared_statements.remove(&close.name);
+                                        }
 
                                         // Queue up a close complete message to send to the client
                                         self.response_message_queue_buffer.put(close_complete());
